@@ -37,7 +37,7 @@ Proof.
 Qed.
 
 (* every leading index is treated alike: row l of the result is the gather of row l of the data *)
-Lemma c12_nn_spec : forall nn nf ne t data res, c12_nn nn nf ne t data = Some res ->
+Lemma c12_nn_spec : forall rank1 nn nf ne t data res, c12_nn rank1 nn nf ne t data = Some res ->
   exists r0 kd, hd_error data = Some r0 /\
     c12_kind_by_length nn nf ne (Z.of_nat (length r0)) = Some kd /\
     length res = length data /\
@@ -47,10 +47,10 @@ Lemma c12_nn_spec : forall nn nf ne t data res, c12_nn nn nf ne t data = Some re
           exists s d, nth_error out i = Some (nth s row 0%Q) /\ nth_error keys s = Some d /\
                       forall j dj, nth_error keys j = Some dj -> d <= dj.
 Proof.
-  intros nn nf ne t data res H. unfold c12_nn in H.
+  intros rank1 nn nf ne t data res H. unfold c12_nn in H.
   destruct data as [|r0 data']; [discriminate|].
   destruct (c12_kind_by_length nn nf ne (Z.of_nat (length r0))) as [kd|] eqn:Ek; [|discriminate].
-  destruct (c12_single (c12_table t kd)) eqn:Es; [discriminate|].
+  destruct (rank1 && Nat.eqb (length (c12_table t kd)) 1); [discriminate|].
   inversion H; subst; clear H. exists r0, kd.
   split; [reflexivity|]. split; [exact Ek|]. split; [cbn [length]; f_equal; apply map_length|].
   { intros l row Hl. exists (c12_nn_row (c12_table t kd) row). split.
@@ -99,17 +99,21 @@ Qed.
 
 (* remapping onto the source grid's own elements is the identity (kind taken as coded: under the
    hypothesis that the coded choice is the data's kind) *)
-Lemma c12_nn_identity : forall nn nf ne t data kd r0,
+Lemma c12_nn_identity : forall rank1 nn nf ne t data kd r0,
   hd_error data = Some r0 ->
   c12_kind_by_length nn nf ne (Z.of_nat (length r0)) = Some kd ->
   c12_own_table (c12_table t kd) ->
   Forall (fun row => length row = length (c12_table t kd)) data ->
-  length (c12_table t kd) <> 1%nat ->
-  c12_nn nn nf ne t data = Some data.
+  rank1 = false \/ length (c12_table t kd) <> 1%nat ->
+  c12_nn rank1 nn nf ne t data = Some data.
 Proof.
-  intros nn nf ne t data kd r0 Hhd Hk Hown Hall Hn1. unfold c12_nn.
+  intros rank1 nn nf ne t data kd r0 Hhd Hk Hown Hall Hr. unfold c12_nn.
   destruct data as [|r data']; [discriminate|]. cbn in Hhd. inversion Hhd; subst r0.
-  rewrite Hk. unfold c12_single. destruct (Nat.eqb_spec (length (c12_table t kd)) 1); [contradiction|]. f_equal. rewrite <- (map_id (r :: data')) at 2.
+  rewrite Hk.
+  assert (E : rank1 && Nat.eqb (length (c12_table t kd)) 1 = false).
+  { destruct Hr as [->|Hn]; [reflexivity|]. destruct (Nat.eqb_spec (length (c12_table t kd)) 1); [contradiction|].
+    apply andb_false_r. }
+  rewrite E. f_equal. rewrite <- (map_id (r :: data')) at 2.
   apply map_ext_in. intros row Hin. rewrite Forall_forall in Hall.
   apply c12_nn_identity_row; auto. symmetry. apply Hall. exact Hin.
 Qed.
@@ -334,11 +338,10 @@ Lemma c12_idw_fast_shape : forall nn nf ne t data scale p eps k,
   end.
 Proof.
   intros. unfold c12_idw, c12_idw_fast, c12_idw_gen.
-  destruct ((nn <? Z.of_nat k) || (Z.of_nat k <=? 1)); auto.
   destruct data as [|r0 data']; auto.
+  destruct ((Z.of_nat (length r0) <? Z.of_nat k) || (Z.of_nat k <=? 1)); auto.
   destruct (c12_kind_by_length nn nf ne (Z.of_nat (length r0))) as [kd|]; auto.
   destruct (c12_count nn nf ne kd <? Z.of_nat k); auto.
-  destruct (c12_single (c12_table t kd)); auto.
   generalize (r0 :: data'). intros l. induction l as [|row l IH]; cbn [map]; constructor; auto.
   generalize (c12_table t kd). intros tab. induction tab as [|keys tab IH2]; cbn [map]; constructor; auto.
   apply c12_idw_point_fast_eq.
@@ -347,8 +350,8 @@ Qed.
 (* shape of the IDW result and its guards *)
 Lemma c12_idw_spec : forall nn nf ne t data scale p eps k res,
   c12_idw nn nf ne t data scale p eps k = Some res ->
-  (2 <= k)%nat /\ Z.of_nat k <= nn /\
-  exists r0 kd, hd_error data = Some r0 /\
+  (2 <= k)%nat /\
+  exists r0 kd, hd_error data = Some r0 /\ (k <= length r0)%nat /\
     c12_kind_by_length nn nf ne (Z.of_nat (length r0)) = Some kd /\
     Z.of_nat k <= c12_count nn nf ne kd /\
     length res = length data /\
@@ -356,13 +359,13 @@ Lemma c12_idw_spec : forall nn nf ne t data scale p eps k res,
       nth_error res l = Some (map (c12_idw_point scale p eps k row) (c12_table t kd)).
 Proof.
   intros nn nf ne t data scale p eps k res H. unfold c12_idw, c12_idw_gen in H.
-  destruct ((nn <? Z.of_nat k) || (Z.of_nat k <=? 1)) eqn:Eg; [discriminate|].
   destruct data as [|r0 data']; [discriminate|].
+  destruct ((Z.of_nat (length r0) <? Z.of_nat k) || (Z.of_nat k <=? 1)) eqn:Eg; [discriminate|].
   destruct (c12_kind_by_length nn nf ne (Z.of_nat (length r0))) as [kd|] eqn:Ek; [|discriminate].
   destruct (c12_count nn nf ne kd <? Z.of_nat k) eqn:Ec; [discriminate|].
-  destruct (c12_single (c12_table t kd)) eqn:Es; [discriminate|].
-  injection H as H. subst res. split; [lia|]. split; [lia|].
-  exists r0, kd. split; [reflexivity|]. split; [exact Ek|]. split; [lia|]. split; [cbn [length]; f_equal; apply map_length|].
+  injection H as H. subst res. split; [lia|].
+  exists r0, kd. split; [reflexivity|]. split; [lia|]. split; [exact Ek|]. split; [lia|].
+  split; [cbn [length]; f_equal; apply map_length|].
   intros l row Hl.
   change (nth_error (map (fun row => map (c12_idw_point scale p eps k row) (c12_table t kd)) (r0 :: data')) l
           = Some (map (c12_idw_point scale p eps k row) (c12_table t kd))).
@@ -370,38 +373,61 @@ Proof.
   exact Hl.
 Qed.
 
-(* an admissible k (2 <= k <= number of source elements of the data's kind) is rejected when it
-   exceeds the number of nodes: icosahedron, 12 nodes, 20 faces, face data, k = 15 *)
-Lemma c12_idw_k_guard_refuted : exists nn nf ne t data scale p eps k,
-  hd_error data = Some (repeat 0%Q 20) /\
-  c12_kind_by_length nn nf ne 20 = Some C11Faces /\ (2 <= k)%nat /\ Z.of_nat k <= nf /\
-  c12_idw nn nf ne t data scale p eps k = None.
+(* the coded kind's count is the trailing length *)
+Lemma c12_kind_by_length_count : forall nn nf ne len kd,
+  c12_kind_by_length nn nf ne len = Some kd -> c12_count nn nf ne kd = len.
 Proof.
-  exists 12, 20, 30, {| cd_node := []; cd_face := []; cd_edge := [] |}, [repeat 0%Q 20], 1%positive, 2%nat,
-    (1 # 1000000)%Q, 15%nat.
-  repeat split; try reflexivity; lia.
+  intros nn nf ne len kd H. unfold c12_kind_by_length in H.
+  destruct (Z.eqb_spec len nn); [inversion H; subst; reflexivity|].
+  destruct (Z.eqb_spec len nf); [inversion H; subst; reflexivity|].
+  destruct (Z.eqb_spec len ne); [inversion H; subst; reflexivity|discriminate].
 Qed.
 
-(* a destination with exactly one element is rejected although everything is admissible: node data on
-   three nodes remapped to one point *)
-Lemma c12_single_destination_refuted : exists nn nf ne t data,
+(* every admissible k (2 <= k <= number of source elements carrying the data) is answered, whatever
+   the element kind and whatever the number of destination points (one included) *)
+Lemma c12_idw_answers : forall nn nf ne t data scale p eps k r0 kd,
+  hd_error data = Some r0 -> c12_kind_by_length nn nf ne (Z.of_nat (length r0)) = Some kd ->
+  (2 <= k <= length r0)%nat -> exists res, c12_idw nn nf ne t data scale p eps k = Some res.
+Proof.
+  intros nn nf ne t data scale p eps k r0 kd Hhd Hk Hr. unfold c12_idw, c12_idw_gen.
+  destruct data as [|r data']; [discriminate|]. cbn in Hhd. inversion Hhd; subst r0.
+  destruct ((Z.of_nat (length r) <? Z.of_nat k) || (Z.of_nat k <=? 1)) eqn:Eg; [lia|].
+  rewrite Hk. rewrite (c12_kind_by_length_count _ _ _ _ _ Hk).
+  destruct (Z.of_nat (length r) <? Z.of_nat k) eqn:Ec; [lia|]. eauto.
+Qed.
+
+(* faces outnumbering nodes (icosahedron, face data, k = 15) and a single destination point *)
+Example c12_idw_answers_nonvacuous : exists res,
+  c12_idw 12 20 30 {| cd_node := []; cd_face := [repeat 1 20]; cd_edge := [] |} [repeat 0%Q 20]
+          1%positive 2%nat (1 # 1000000)%Q 15%nat = Some [res].
+Proof. eexists. vm_compute. reflexivity. Qed.
+
+(* nearest-neighbour remapping answers whenever the trailing length is one of the counts, a single
+   destination point included - except one-dimensional data onto a single destination point *)
+Lemma c12_nn_answers : forall rank1 nn nf ne t data r0 kd,
+  hd_error data = Some r0 -> c12_kind_by_length nn nf ne (Z.of_nat (length r0)) = Some kd ->
+  rank1 = false \/ length (c12_table t kd) <> 1%nat ->
+  exists res, c12_nn rank1 nn nf ne t data = Some res.
+Proof.
+  intros rank1 nn nf ne t data r0 kd Hhd Hk Hr. unfold c12_nn.
+  destruct data as [|r data']; [discriminate|]. cbn in Hhd. inversion Hhd; subst r0. rewrite Hk.
+  assert (E : rank1 && Nat.eqb (length (c12_table t kd)) 1 = false).
+  { destruct Hr as [->|Hn]; [reflexivity|]. destruct (Nat.eqb_spec (length (c12_table t kd)) 1); [contradiction|].
+    apply andb_false_r. }
+  rewrite E. eauto.
+Qed.
+
+Example c12_single_destination_nonvacuous :
+  c12_nn false 3 1 4 {| cd_node := [[5; 1; 7]]; cd_face := []; cd_edge := [] |} [[1#1; 2#1; 3#1]%Q] = Some [[2#1]%Q].
+Proof. vm_compute. reflexivity. Qed.
+
+(* one-dimensional node data on three nodes, one destination point: rejected although admissible *)
+Lemma c12_nn_rank1_single_destination_refuted : exists nn nf ne t data,
   hd_error data = Some [1#1; 2#1; 3#1]%Q /\ c12_kind_by_length nn nf ne 3 = Some C11Nodes /\
-  c12_table t C11Nodes = [[5; 1; 7]] /\
-  c12_nn nn nf ne t data = None /\
-  c12_idw nn nf ne t data 1%positive 2%nat (1 # 1000000)%Q 2%nat = None.
+  c12_table t C11Nodes = [[5; 1; 7]] /\ c12_nn true nn nf ne t data = None.
 Proof.
   exists 3, 1, 4, {| cd_node := [[5; 1; 7]]; cd_face := []; cd_edge := [] |}, [[1#1; 2#1; 3#1]%Q].
   repeat split; reflexivity.
-Qed.
-
-(* ... while more than one destination point is answered *)
-Lemma c12_nn_answers : forall nn nf ne t data r0 kd,
-  hd_error data = Some r0 -> c12_kind_by_length nn nf ne (Z.of_nat (length r0)) = Some kd ->
-  length (c12_table t kd) <> 1%nat -> exists res, c12_nn nn nf ne t data = Some res.
-Proof.
-  intros nn nf ne t data r0 kd Hhd Hk Hn. unfold c12_nn.
-  destruct data as [|r data']; [discriminate|]. cbn in Hhd. inversion Hhd; subst r0. rewrite Hk.
-  unfold c12_single. destruct (Nat.eqb_spec (length (c12_table t kd)) 1); [contradiction|]. eauto.
 Qed.
 
 (* ------------------------------------------------------------------------------------------ *)
@@ -427,7 +453,7 @@ Definition c12_ex_t : c12_dists :=
   {| cd_node := [[0; 5; 9]; [5; 0; 7]; [9; 7; 0]]; cd_face := [[3]; [4]; [8]]; cd_edge := [[1; 2; 6]; [2; 1; 4]; [6; 4; 1]] |}.
 
 Example c12_nn_nonvacuous :
-  c12_nn 3 1 3 c12_ex_t ([[1#1; 2#1; 3#1]; [4#1; 5#1; 6#1]])%Q = Some ([[1#1; 2#1; 3#1]; [4#1; 5#1; 6#1]])%Q.
+  c12_nn false 3 1 3 c12_ex_t ([[1#1; 2#1; 3#1]; [4#1; 5#1; 6#1]])%Q = Some ([[1#1; 2#1; 3#1]; [4#1; 5#1; 6#1]])%Q.
 Proof. vm_compute. reflexivity. Qed.
 
 Example c12_own_table_nonvacuous : c12_own_table (cd_node c12_ex_t).
